@@ -7,22 +7,38 @@ from flosim.gen import cfg_with
 class C05(FloCheck):
     pid = "C05"
     design_ref = "§6 C05"
-    cfg = cfg_with(nframes=(2, 7), p_child=0.7, p_under=0.3, naux=(0, 2), p_caux=0.35, p_aux=0.1, p_bid=0.25, nslaves=(0, 1))
+    cfg = cfg_with(p_go_me_parent=0.3, nframes=(2, 7), p_child=0.7, p_under=0.3, naux=(0, 2), p_caux=0.35, p_aux=0.1, p_bid=0.25, nslaves=(0, 1))
     rule = ("generated frame forests (nesting via 'in', primary-child overrides via 'under', several children) with transitions, "
             "conditional auxiliaries and stop / abort bids; after every framer run the active frames are compared with the chain "
             "computed from the AST (ancestors, active frame, primary children to a leaf; cut at the main frame of a running "
             "conditional aux; empty when stopped or aborted) and with the reference interpreter; non-trivial = a nested outline "
             "of depth >= 2 was active; distinct = digest of per-run (status, active outline)")
     assumptions = ["direct invariant computed from the AST; the reference interpreter is a second opinion"]
-    required_probes = ["nested", "cut-at-conditional-aux", "under-override", "stopped-empty"]
+    required_probes = ["nested", "cut-at-conditional-aux", "under-override", "stopped-empty", "forced-reentry-of-active-frame-while-suspended"]
 
     def relevant(self, kind):
         return kind in ("active-outline", "status")
+
+    @staticmethod
+    def project(e):
+        return e[1] in ("send", "sent")
 
     def invariants(self, plan, res, impl, out):
         check_actives(plan, impl, out)
 
     def probes(self, plan, res, impl, out):
+        from checks.flocommon import outline_of
+        frs = dict((f["name"], f) for f in plan["program"]["framers"])
+        last = {}
+        for e in impl:
+            if e[1] == "sent" and e[5] and e[5][0]:
+                full = outline_of(frs[e[2]], e[5][0])
+                prev = last.get(e[2])
+                if prev and prev[2] and prev[0] == e[5][0] and e[5][2] == 0 and prev[1] > 0 and e[4] == 2:
+                    out.probe("forced-reentry-of-active-frame-while-suspended")
+                last[e[2]] = (e[5][0], e[5][2], len(e[5][1]) < len(full))
+            elif e[1] == "sent":
+                last.pop(e[2], None)
         for e in impl:
             if e[1] == "sent" and e[5]:
                 if len(e[5][1]) >= 2:
